@@ -92,6 +92,17 @@ impl RangeKeeper {
 }
 
 fn get_text_edits(old_text: &str, new_text: &str) -> Vec<TextEdit> {
+    if old_text.contains('\r') {
+        // The formatter emits line feeds only, and a position between a carriage return and its line feed does not
+        // exist in LSP. So do not try to diff away individual carriage returns but replace the whole document.
+        let range =
+            RangeKeeper::new().to_range(&old_text.replace("\r\n", "\n").replace('\r', "\n"));
+        return vec![TextEdit {
+            range,
+            new_text: new_text.into(),
+        }];
+    }
+
     let mut rk = RangeKeeper::new();
 
     let edits = diff(old_text, new_text);
